@@ -58,7 +58,7 @@ def tipEffect (op : String) : Option TipEffect :=
     match parsePath p with
     | some (some q) => some (.subtree q)
     | _ => none
-  | ["reinitinternal"] | ["updatetipindex"] | ["rotateone", _, _] | ["clearlengths", _, _] | ["clearsupports"] | ["clearcomments"] | ["scalelengths", _, _, _]
+  | ["reinitinternal"] | ["updatetipindex"] | ["cutedges", _] | ["addbip", _, _, _, _] | ["rotateone", _, _] | ["clearlengths", _, _] | ["clearsupports"] | ["clearcomments"] | ["scalelengths", _, _, _]
   | ["roundlengths", _, _, _] => some .same
   | ["identicalone", _, nw] => (unescape nw).map fun n => .add [n]
   | ["collapseclade", _, name, _] => (unescape name).map fun n => .subsetWith [n]
@@ -93,9 +93,6 @@ def edgeIdAt (t : T) (p : Path) : Option Int :=
   match p.getLast?, subtreeAt t p.dropLast with
   | some i, some parent => (parent.kids[i]?).map (·.1.id)
   | _, _ => none
-
-def isRenaming (n : String) : Bool :=
-  ([] : List String).contains n
 
 def modelOf (op extra : String) (inSync sizesOK : Bool) (tb : T) : ModelRes :=
   -- trees with fewer than 3 tips are outside the quantifier of the operation models (C05 … C17)
@@ -145,6 +142,7 @@ def modelOf (op extra : String) (inSync sizesOK : Bool) (tb : T) : ModelRes :=
     | _, _ => .noModel
   | ["reinit"] => ofRes (applyOp .reinit tb)
   | ["reinitinternal"] => .ok tb
+  | ["cutedges", _] => if tb.edges.isEmpty then .ok tb else .ok tb   -- CutEdgesMaxLength only numbers the branches (pre-order, as the harness does)
   | ["resolvenamed"] => .ok (resolveNamed false tb)
   | ["updatetipindex"] => if hasDupS tb.tipNames then .err else .ok tb
   | ["identicalone", old, nw] =>
@@ -155,14 +153,14 @@ def modelOf (op extra : String) (inSync sizesOK : Bool) (tb : T) : ModelRes :=
        | .ok t' => .ok t'
        | .error _ => .err)
     | _, _ => .noModel
-  | ["clearlengths", i, x] => .ok (clearLengths (flagOf i) (flagOf x) tb)
-  | ["clearsupports"] => .ok (clearSupports tb)
-  | ["clearcomments"] => .ok (clearComments tb)
+  | ["clearlengths", i, x] => ofRes (applyOp (.clearLengths (flagOf i) (flagOf x)) tb)
+  | ["clearsupports"] => ofRes (applyOp .clearSupports tb)
+  | ["clearcomments"] => ofRes (applyOp .clearComments tb)
   | ["scalelengths", q, i, x] =>
     match parseRat? q with
-    | some r => .ok (scaleLengths r (flagOf i) (flagOf x) tb)
+    | some r => ofRes (applyOp (.scaleLengths r (flagOf i) (flagOf x)) tb)
     | none => .noModel
-  | ["roundlengths", "0", i, x] => .ok (roundLengths0 (flagOf i) (flagOf x) tb)
+  | ["roundlengths", "0", i, x] => ofRes (applyOp (.roundLengths0 (flagOf i) (flagOf x)) tb)
   | ["shuffle", _] =>
     match parseDraws extra with
     | some ds => ofRes (applyOp (.shuffle ds) tb)
@@ -271,6 +269,11 @@ def editOpOf (op extra : String) : Option EditOp :=
   | ["addquotes", i, tp] => some (.quotes true (flagOf i) (flagOf tp))
   | ["rmquotes", i, tp] => some (.quotes false (flagOf i) (flagOf tp))
   | ["reinit"] => some .reinit
+  | ["clearlengths", i, x] => some (.clearLengths (flagOf i) (flagOf x))
+  | ["clearsupports"] => some .clearSupports
+  | ["clearcomments"] => some .clearComments
+  | ["scalelengths", q, i, x] => (parseRat? q).map fun r => .scaleLengths r (flagOf i) (flagOf x)
+  | ["roundlengths", "0", i, x] => some (.roundLengths0 (flagOf i) (flagOf x))
   | ["rename", olds, news] =>
     match parseStrList olds, parseStrList news with
     | some o, some n => some (.rename (o.zip n))
@@ -302,7 +305,7 @@ def sizesInSync : List String → Bool
   | [] => true
   | op :: earlier =>
     let n := opName op
-    if ["graftedge", "grafttree", "nni", "nniapply", "nniundo", "collapseclade", "identicalone"].contains n then false
+    if ["graftedge", "grafttree", "nni", "nniapply", "nniundo", "collapseclade", "identicalone", "addbip"].contains n then false
     else if ["reinit", "prune", "reroot", "rerootfirst", "outgroup", "midpoint", "resolve", "removesingle", "collapselen",
              "collapsesup", "collapsedepth", "removeedges", "shuffle", "identical", "merge", "subtree", "resolvenamed", "reinitinternal"].contains n then true
     else sizesInSync earlier
@@ -336,23 +339,16 @@ def handle (op : String) (f : List String) : Verdict :=
         | .ok _ => ⟨.tie, tags0 ++ ["err", "err=" ++ last], "implementation refuses " ++ last ++ ", the model succeeds"⟩
         | .panic => ⟨.tie, tags0 ++ ["err", "err=" ++ last], "implementation refuses " ++ last ++ ", the model panics"⟩
         | .err => ⟨.pass, tags0 ++ ["err", "err=" ++ last, "tie-err"], ""⟩
-        | _ => ⟨.pass, tags0 ++ ["err", "err=" ++ last], ""⟩
+        | _ =>
+          -- NNI Undo as a later step has no model; but when only order / root / index edits happened
+          -- since the Apply ("clean") the four adjacencies it looks up still exist: it must not refuse
+          if last == "nniundo" && extra.startsWith "undo=1" then
+            ⟨.tie, tags0 ++ ["err", "err=" ++ last], "Undo refuses although only order/root/index edits happened since the Apply"⟩
+          else ⟨.pass, tags0 ++ ["err", "err=" ++ last], ""⟩
     else if outcome != "ok" then
-      -- an edit that crashes on a tree with fewer than 3 tips is "not applicable" (RerootOutGroup
-      -- dereferences a nil node there; outside every property's quantifier, integrator's ruling)
-      let small := match T.undump before with
-        | some tb => tb.tipNames.length < 3
-        | none => false
-      -- AddQuotes / RemoveQuotes index name[0]: the model says where they panic (not a successful edit)
-      let modelPanics : Bool := match T.undump before with
-        | some tb => (last == "addquotes" || last == "rmquotes") &&
-            (match lastOp.splitOn ":" with
-             | [_, i, tp] => (match applyOp (.quotes (last == "addquotes") (flagOf i) (flagOf tp)) tb with | .panic _ => true | _ => false)
-             | _ => false)
-        | none => false
-      if modelPanics && outcome.startsWith "panic" then ⟨.pass, tags0 ++ ["panic-modelled", "err"], ""⟩
-      else if small && outcome.startsWith "panic" then ⟨.pass, tags0 ++ ["panic-small-tree", "err"], ""⟩
-      else ⟨.oracle, tags0 ++ ["crash"], "operation " ++ last ++ " did not return: " ++ outcome⟩
+      -- no exemption: since 16b4243 (RerootOutGroup on two-tip trees reports an error) and 763a2ae
+      -- (quotes skip unnamed nodes) no edit is known to crash on a well-formed tree
+      ⟨.oracle, tags0 ++ ["crash"], "operation " ++ last ++ " did not return: " ++ outcome⟩
     else
     -- clause 1 of the property, judged by the Spec on the raw pointer graph; the harness' own walker
     -- (`wf`) is kept as a cross-check: the two must agree
@@ -378,7 +374,7 @@ def handle (op : String) (f : List String) : Verdict :=
         | ["removeedges", rr, rt, paths] =>
           (((paths.splitOn ",").filter (· ≠ "")).mapM (fun s => (parsePath s).bind id)).bind fun ps =>
             (ps.mapM (edgeIdAt tb)).map fun ids => EditOp.removeEdges (flagOf rr) (flagOf rt) ids
-        | _ => if isRenaming last then some (EditOp.relabel t.nodeNames) else editOpOf lastOp extra
+        | _ => editOpOf lastOp extra
       let tags := tags0 ++ tagIf (kinds.length ≥ 3 && changed && after != before) "nontrivial" ++ tagIf t.rooted "rooted" ++
         tagIf (t.kids.length ≥ 3) "unrooted" ++ tagIf (t.kids.length ≤ 1) "root-degenerate" ++
         tagIf ((allPaths t).any fun p => match subtreeAt t p with | some s => s.kids.length ≥ 3 && !p.isEmpty | none => false) "multifurcating" ++
@@ -407,7 +403,12 @@ def handle (op : String) (f : List String) : Verdict :=
         ⟨.oracle, tags, "after " ++ last ++ ": tips were lost or appeared: " ++ showStrList t.tipNames ++ " from " ++ showStrList tb.tipNames⟩
       else if !ep.isEmpty then ⟨.oracle, tags, "after " ++ last ++ ": " ++ "; ".intercalate ep⟩
       else if !tp.isEmpty then
-        ⟨.oracle, tags, "after " ++ last ++ ": " ++ "; ".intercalate tp ++ " text=" ++ text⟩
+        -- open finding F85: a renaming introduced a name with a Newick metacharacter, which the writer
+        -- prints unquoted; region: the step is a renaming, the tree before had no such name, and the
+        -- text clause is the only one that fails (graph, α, tips and enumerations passed above)
+        let cls := if ["rename", "renameregex", "renameauto", "addquotes", "rmquotes"].contains last &&
+            hasMetaName t && !(hasMetaName tb) then "class=NewickUnquotedMetacharName " else ""
+        ⟨.oracle, tags ++ tagIf (cls != "") "meta-name", cls ++ "after " ++ last ++ ": " ++ "; ".intercalate tp ++ " text=" ++ text⟩
       else
       -- the invariant of `history_inv`, evaluated on the implementation's own result
       let invAfter : Bool := match eo with
@@ -463,8 +464,7 @@ def handle (op : String) (f : List String) : Verdict :=
         | none => [])
       -- a renaming may change nothing but node names: the new names are read off the result
       let mres :=
-        if isRenaming last then ofRes (applyOp (.relabel t.nodeNames) tb)
-        else if last == "nniundo" then
+        if last == "nniundo" then
           (match undoInfo with
            | none => .ok tb                                   -- nothing to undo: no-op
            | some (_, fresh, d) =>
@@ -480,7 +480,7 @@ def handle (op : String) (f : List String) : Verdict :=
         else modelOf lastOp extra inSync sizesOK tb
       match mres with
       | .ok m =>
-        if m.dump == after then ⟨.pass, tags ++ [if isRenaming last then "tie-exact-up-to-names" else "tie-exact"], ""⟩
+        if m.dump == after then ⟨.pass, tags ++ ["tie-exact"], ""⟩
         else ⟨.tie, tags, "after " ++ last ++ " the model's tree is " ++ m.dump⟩
       | .err => ⟨.tie, tags, "implementation succeeds with " ++ last ++ ", the model refuses"⟩
       | .panic => ⟨.tie, tags, "implementation succeeds with " ++ last ++ ", the model panics"⟩
